@@ -8,7 +8,7 @@ import TantivyModel.Proofs.Columnar.CompactColumnMain
 import TantivyModel.Proofs.Columnar.StackMissing
 import TantivyModel.Proofs.Columnar.Writer
 import TantivyModel.Proofs.Columnar.OptRankSelect
-import TantivyModel.Proofs.Columnar.DictMergeMain
+import TantivyModel.Proofs.Columnar.DictColumn
 /-!
 # C08 — Fast fields return exactly the values that were indexed
 
@@ -552,6 +552,33 @@ example : remapOrd (mergeDicts (fun _ _ => true) [[1, 3, 5], [2, 3], []]) 0 1 = 
 -- no surviving row uses ordinal 0 of segment 0: term 1 is dropped and the later ordinals shift
 example : (mergeDicts (fun s o => !(s == 0 && o == 0)) [[1, 3, 5], [2, 3], []]).merged = [2, 3, 5] := by decide
 example : remapOrd (mergeDicts (fun s o => !(s == 0 && o == 0)) [[1, 3, 5], [2, 3], []]) 0 2 = some 2 := by decide
+
+/-- the merged Str / Bytes column end to end (`merge_bytes_or_str_column`: merged dictionary, merged
+column index, ordinals remapped per segment while the rows are rearranged): for any row mapping
+(deleted rows absent, segments without the column), any cardinality that fits, if every ordinal of a
+surviving row lies inside its segment's dictionary and is marked used (the term bitsets of the alive
+rows; always the case when every term is kept), then resolving every merged row through the merged
+dictionary gives exactly the terms the old row resolved to in its own segment. -/
+theorem C08_dictionary_column_merge (card : Card) (used : Nat → Nat → Bool) (order : List (Nat × Nat))
+    (ins : List DictInput)
+    (hdict : ∀ d ∈ ins, d.dict.Pairwise (· < ·))
+    (hvalid : ∀ a ∈ order, validAddr (ins.map (·.ords)) a)
+    (hfit : card.fits (order.map (inputRow (ins.map (·.ords)))))
+    (hords : ∀ a ∈ order, ∀ o ∈ inputRow (ins.map (·.ords)) a, o < ((ins.map (·.dict)).getD a.1 []).length)
+    (hused : ∀ a ∈ order, ∀ o ∈ inputRow (ins.map (·.ords)) a, used a.1 o = true) :
+    readTerms (mergeDictColumnAs card used order ins).1 (mergeDictColumnAs card used order ins).2.1
+        (mergeDictColumnAs card used order ins).2.2
+      = mergeSpec order (ins.map DictInput.readTerms) :=
+  mergeDictColumn_spec card used order ins hdict hvalid hfit hords hused
+
+-- segment 0: dictionary [1,3,5], rows [1,5] and [3]; segment 1: dictionary [2,3], row [3]; row 1 of
+-- segment 0 is deleted and term 2 is used by no row: merged dictionary [1,3,5], rows [3] and [1,5]
+example :
+    mergeDictColumnAs .multivalued (fun s o => (s == 0 && (o == 0 || o == 2)) || (s == 1 && o == 1)) [(1, 0), (0, 0)]
+      [⟨[1, 3, 5], ⟨2, some (encodeAs .multivalued [[0, 2], [1]])⟩⟩, ⟨[2, 3], ⟨1, some (encodeAs .full [[1]])⟩⟩]
+    = ([1, 3, 5], .multivalued [0, 1] 2 [0, 1, 3], [1, 0, 2]) := by decide
+example :
+    readTerms [1, 3, 5] (.multivalued [0, 1] 2 [0, 1, 3]) [1, 0, 2] = [[some 3], [some 1, some 5]] := by decide
 
 /-! ## monotone mappings (functions extracted from common/src/lib.rs) -/
 
